@@ -4,7 +4,9 @@ from . import cast, frontend as fe
 from .cast import walk, children, qt, dqt, pos, callee_of
 
 CALLS = {'rand', 'srand', 'random', 'rand_r', 'drand48', 'time', 'clock', 'getenv', 'secure_getenv', 'now', 'gettimeofday',
-         'clock_gettime', 'getpid', 'tmpnam', 'mkstemp', 'localtime', 'gmtime'}
+         'clock_gettime', 'getpid', 'tmpnam', 'mkstemp', 'localtime', 'gmtime',
+         # unsynchronised standard streams read ahead: how much of a shared stdin the run consumes is no longer a function of the program
+         'sync_with_stdio'}
 TYPES = ('unordered_map', 'unordered_set', 'unordered_multimap', 'unordered_multiset', 'random_device', 'mt19937',
          'default_random_engine', 'std::hash<')
 PTR_KEY = re.compile(r'std::(map|set|multimap|multiset)<\s*(const\s+)?[\w:]+(\s+const)?\s*\*')
@@ -122,7 +124,7 @@ def scan(idx, namespaces=None, funcs=None):
 FIXTURE = os.path.join(os.path.dirname(os.path.abspath(__file__)), 'fixtures', 'nondet.cpp')
 EXPECT_FIXTURE = {'type:unordered_map', 'type:unordered_set', 'pointer-keyed-container', 'pointer-to-integer', 'stream-pointer',
                   'call:getenv', 'call:rand', 'type:random_device', 'call:time', 'call:now', 'type:std::hash', 'call:clock',
-                  'function-static', 'mutable-global', 'uninitialised-buffer', 'errno-read-without-reset', 'environment-locale'}
+                  'function-static', 'mutable-global', 'uninitialised-buffer', 'errno-read-without-reset', 'environment-locale', 'call:sync_with_stdio'}
 
 
 def fixture_patterns():
